@@ -2,7 +2,7 @@
    Time is a property of CPython's regex engine; what is proved is a bound on the size of the backtracking
    search (the number of ends, with multiplicity, of the reference semantics Regex.ends) for the patterns
    REGENERATED from the sources; the step <-> seconds link is measured, not proved. *)
-From SV Require Import Base Regex RegexFacts RegexCost DetCost.
+From SV Require Import Base Regex RegexFacts RegexCost DetCost RegexSem.
 From SV.gen Require Import RegexGen.
 
 (* a single-ended expression has at most one end on every subject *)
@@ -87,3 +87,10 @@ Theorem C07_bound_for_every_subexpression : forall r, cert r = true -> forall r'
   forall st c, length (ends r' st c) <= (length (after st) + 2) ^ deg r'.
 Proof. exact cert_bound_everywhere. Qed.
 Print Assumptions C07_bound_for_every_subexpression.
+
+(* What the search is a search FOR: Regex.ends - whose size the theorems above bound - finds exactly the matches of the
+   declarative semantics M (RegexSem), for the WHOLE expression language (look-ahead, look-behind, anchors, bounded and
+   unbounded, greedy and lazy repetition), every subject and every position; captures aside. *)
+Theorem C07_matcher_is_the_declarative_semantics : forall r st c st', has_end (ends r st c) st' <-> M r st st'.
+Proof. exact ends_iff_M. Qed.
+Print Assumptions C07_matcher_is_the_declarative_semantics.
